@@ -46,6 +46,11 @@ func c02Scenario(cmds []string) *chain.Scenario {
 	// cmds[0] = invoked command, cmds[1..n] = links leaf to root
 	n := len(cmds) - 1
 	s := &chain.Scenario{Subject: gen.Ed(0), Invoker: gen.Ed(n % 10), Cmd: cmds[0], Args: ref.Map()}
+	if strings.HasPrefix(cmds[0], "/ucan") {
+		// commands of the specification's own namespace come with the arguments the specification
+		// gives them (a link to the token they are about)
+		s.Args = ref.Map(ref.E("ucan", ref.Link(gen.LinkPool()[0])), ref.E("ucans", ref.List(ref.Link(gen.LinkPool()[0]))))
+	}
 	for k := 0; k < n; k++ {
 		s.Links = append(s.Links, chain.Link{Iss: gen.Ed((n - 1 - k) % 10), Aud: gen.Ed((n - k) % 10), Sub: gen.Ed(0), Cmd: cmds[k+1]})
 	}
@@ -161,7 +166,7 @@ func runC02(w *mon.W) {
 	// a second small lattice, exhaustive for n <= 2: segments that mean something special elsewhere
 	// (wildcards of earlier UCAN versions and of shells, relative path segments, an encoded
 	// slash) are ordinary segments here; two thirds of these chains go through the decoders
-	special := []string{"/", "/a", "/a/b", "/a/*", "/*", "/a/**", "/a/.", "/a/..", "/a/%2f", "/a/b/*"}
+	special := []string{"/", "/a", "/a/b", "/a/*", "/*", "/a/**", "/a/.", "/a/..", "/a/%2f", "/a/b/*", "/ucan", "/ucan/revoke", "/ucan/attest"}
 	for n := 1; n <= 2; n++ {
 		cmds := make([]string, n+1)
 		var rec func(k int)
